@@ -79,6 +79,11 @@ pub assume_specification<P: std::str::pattern::Pattern>[ str::trim_start_matches
 pub assume_specification<'a, P: std::str::pattern::Pattern>[ str::split_once::<P> ](s: &'a str, p: P) -> (r: Option<(&'a str, &'a str)>)
     ensures r matches Some(ab) ==> s@ == ab.0@ + pat_view(p) + ab.1@;
 
+/// `str::eq_ignore_ascii_case`: equal texts compare equal; otherwise not modelled
+pub uninterp spec fn spec_eq_ignore_ascii_case(a: Seq<char>, b: Seq<char>) -> bool;
+pub assume_specification[ str::eq_ignore_ascii_case ](a: &str, b: &str) -> (r: bool)
+    ensures r == spec_eq_ignore_ascii_case(a@, b@), a@ == b@ ==> r;
+
 /// `str::replace`: some function of the three texts (not modelled further)
 pub uninterp spec fn spec_replace(s: Seq<char>, from: Seq<char>, to: Seq<char>) -> Seq<char>;
 pub assume_specification<P: std::str::pattern::Pattern>[ str::replace::<P> ](s: &str, from: P, to: &str) -> (r: String)
